@@ -57,6 +57,11 @@ func runC16(r *Run) {
 	if r.Want("foreign") {
 		c16Foreign(r)
 	}
+	// dial on demand AGAIN after the dialled connection has failed: the envelope the proxy then accepts
+	// for the name reaches the newly dialled connection
+	if r.Want("redial") {
+		c17RunAll(r, []c17Scenario{c17DialledFails("redial")})
+	}
 }
 
 // ---------------------------------------------------------------- envelope text (Goat/Drv/PxOps.lean)
